@@ -517,7 +517,7 @@ func main() {
 	if c.Thorough() {
 		params = append(params, "3+fresh", "4")
 	}
-	for _, r := range harness.ExploreBatch("concurrent", params, harness.Pick(c, 3, 4), harness.Pick(c, 60*time.Second, 20*time.Minute), false) {
+	for _, r := range harness.ExploreBatch("concurrent", params, harness.Pick(c, 3, 4), harness.Pick(c, 60*time.Second, 5*time.Minute), false) {
 		c.Sample(map[string]any{"scenario": "concurrent presentations k=" + r.Param, "executions": r.Stats.Execs, "observations": len(r.Stats.Observations)})
 		c.AddExploration("concurrent", r.Param, r.Stats, harness.Confirm(concScenario(r.Param)))
 	}
